@@ -31,7 +31,9 @@ def run_case(coef, x0, tol, K, tid):
     for k in range(1, len(xs)):
         f0, f1 = float(F(xs[k - 1])), float(F(xs[k]))
         conv = abs(float(dF(xs[k - 1]))) <= tol
-        ev.append(dict(e="Iter", cmp="LT" if f1 < f0 else ("EQ" if f1 == f0 else "UP"), conv=bool(conv)))
+        # a capped (20 cut-backs) line search near the minimiser moves by less than the objective's resolution
+        same = abs(f1 - f0) <= 4 * 2.22e-16 * max(1.0, abs(f0))
+        ev.append(dict(e="Iter", cmp="EQ" if same else ("LT" if f1 < f0 else "UP"), conv=bool(conv)))
     ev.append(dict(e="End", gSmall=bool(abs(float(dF(xs[-1]))) <= tol), hitCap=bool(xs[-1] != xs[-2]) if len(xs) > 1 else True))
     return dict(id=tid, ev=ev)
 
